@@ -195,6 +195,19 @@ package datamodel
 //@   ensures[C14] x.i >= 0 && o.i >= 0 ==> r == (x.i == o.i)
 //@   ensures[C14] !(x.i >= 0 && o.i >= 0) ==> r == (segstr(x) == segstr(o))
 
+// ParsePath: one string segment per maximal run of non-slash characters, in order.
+//@ func ParsePath(pth) (r)
+//@   assigns nothing
+//@   ensures[C14] fresh(r.segments) && len(r.segments) == strings.nfields(pth)
+//@   ensures[C14] forall k mathint :: 0 <= k && k < len(r.segments) ==> r.segments[k].i < 0 && r.segments[k].s == strings.fieldat(pth, k)
+//@   loop 0 invariant 0 <= i && i <= ssl && ssl == len(ss) && len(p.segments) == ssl && fresh(p.segments) && root(p.segments) != root(ss)
+//@   loop 0 invariant forall k mathint :: 0 <= k && k < i ==> p.segments[k].i < 0 && p.segments[k].s == ss[k]
+//@   loop 0 invariant forall k mathint :: 0 <= k && k < ssl ==> ss[k] == strings.fieldat(pth, k)
+
+//@ func (Path).String() (r)
+//@   assigns[C20] nothing
+//@   loop 0 invariant 0 <= i && i <= l - 1 && l == len(p.segments)
+
 //@ func NewPath(segments) (r)
 //@   assigns nothing
 //@   ensures[C14] fresh(r.segments) && len(r.segments) == len(segments)
